@@ -94,5 +94,6 @@ CTableOK == (Rec.op = "ctable" /\ Has("maps")) =>
     /\ T = AllValid1                                   \* hence the whole one-qubit group
     /\ \A a, b \in T : Compose(a, b) \in T             \* closed under composition
     /\ \A a \in T : \E b \in T : IsInverse(a, b)       \* and inversion
+    /\ Has("maps2") => Rec.maps2 = Rec.maps             \* the enumeration is a function of the index alone
 GateErrOK == Rec.op = "gate_err" => (Has("exc") /\ Rec.exc = "ValueError")
 =============================================================================
